@@ -152,6 +152,13 @@ def family(sp):
     raise ValueError(f)
 
 
+def call_nodes_of(stmts):
+    for s in stmts:
+        if s['k'] in ('bf', 'sb'):
+            yield s
+            yield from call_nodes_of(s.get('ch', []))
+
+
 def prog_paths(prog):
     """Paths a program mentions, their ancestors, and the input file."""
     ps = set(bf_paths(prog['root']))
